@@ -35,6 +35,14 @@ TESTS = {
                               functions=['tarpc/src/client.rs + client/in_flight_requests.rs (deadline timers, through the public API)', 'tarpc/src/server.rs + server/in_flight_requests.rs (deadline timers, through the public API)'],
                               bound='paused tokio clock; deadlines {50 ms, 1 s, 10 s, 1 h} x peer reply at {never, 0.5 D, 1.1 D} (client) and handler finishing at {never, 0.5 D, 2 D} x channel with/without the request-limit layer (server), next to a second request with deadline 10 D (36 scenarios); probes at 0.8 D (nothing timed out early) and 1.2 D + 5 ms (timed out by then)',
                               why='replay search: source of concrete failing inputs when the deductive checks of the deadline clauses are undecided or fail'),
+    'client_faults_bounded': dict(file='client_faults_bounded', fn='client_fault_injection',
+                                  functions=['tarpc/src/client.rs::RequestDispatch (through the public API, hand-written failing transport)'],
+                                  bound='1|2 calls x the k-th (k<3) invocation of read|ready|start_send|flush|close fails (a failed transport stays failed; a failed request write is a one-off) x first call answered|not x abandoned|not x client dropped|kept (one more call issued afterwards) x readiness immediate|pending once first (480 scenarios, 364 reach the fault); oracles: error names the activity, outstanding calls get a connection error, later calls fail fast, no success without a reply, a failed request write fails only that call, nothing written after a failure, no panic',
+                                  why='replay search: source of concrete failing inputs when the deductive check of unit client is undecided or fails'),
+    'server_faults_bounded': dict(file='server_faults_bounded', fn='server_fault_injection',
+                                  functions=['tarpc/src/server.rs::BaseChannel, Requests; requests_per_channel.rs::MaxRequests; server/in_flight_requests.rs::Drop (through the public API, hand-written failing transport)'],
+                                  bound='peer scripts <= 3 over {Req 7, Req 8, Cancel 7} x the k-th (k<3) invocation of read|ready|start_send|flush fails and stays failed x handlers finish early|never x with/without the request-limit layer x readiness immediate|pending once first (3744 scenarios, 2992 reach the fault); the driver stops serving at the first error like Requests::execute; oracles: exactly one error naming the activity, no write after a failure, running handlers aborted when the channel is dropped, no panic',
+                                  why='replay search: source of concrete failing inputs when the deductive check of unit server is undecided or fails'),
     'channels_bounded': dict(file='channels_bounded', fn='channels_per_key_scripts',
                              functions=['tarpc/src/server/limits/channels_per_key.rs::MaxChannelsPerKey, TrackedChannel, Tracker (through the public API: Incoming::max_channels_per_key over an mpsc listener of BaseChannels)'],
                              bound='every script of <= 9 events over {arrive key 0, arrive key 1, drop the k-th oldest live yielded channel (k<3), poll once} x n in {1,2} (118516 scripts); oracle = the property (admitted iff fewer than n yielded channels with the key are alive when the filter reaches the arrival)',
